@@ -36,7 +36,7 @@ func readState(path string) ([]byte, bool) {
 }
 
 func checkC15(c *Ctx) {
-	c.rule = "the real age and age-keygen binaries (rebuilt from the working tree) in scratch directories: decrypt x {valid file of 0 / 1 / 100 / cs+1 plaintext bytes, armored, header bit flipped, wrong identity, payload flipped in the first / second chunk, truncated mid-chunk / right after the nonce / inside the nonce / exactly at a chunk boundary} x output {-o fresh file, -o existing file, -o in a missing directory, -o under a regular file, -o with RLIMIT_FSIZE = n for every n up to the size of small outputs and around chunk boundaries, stdout to a pipe, stdout = /dev/full}; encrypt x the same outputs; output naming the input / identity file / recipients file as x, ./x, d/../x, $PWD/x, .//x; age-keygen with existing / fresh -o, stdout, /dev/full, -y, umask 0/022/077. Compared with the model (Cli.v fed with the library outcome): exit status = 0?, state of the -o path (absent / unchanged / content), file mode. distinct_nontrivial = distinct (operation, input, output) cases."
+	c.rule = "the real age and age-keygen binaries (rebuilt from the working tree) in scratch directories: decrypt x {valid file of 0 / 1 / 100 / cs+1 plaintext bytes, armored, header bit flipped, wrong identity, payload flipped in the first / second chunk, truncated mid-chunk / right after the nonce / inside the nonce / exactly at a chunk boundary} x output {-o fresh file, -o existing file, -o in a missing directory, -o under a regular file, -o with RLIMIT_FSIZE = n for every n up to the size of small outputs and around chunk boundaries, stdout to a pipe, stdout = /dev/full}; encrypt x the same outputs; output naming the input / identity file / recipients file as x, ./x, d/../x, $PWD/x, .//x; age-keygen with existing / fresh -o, stdout, /dev/full, -y, umask 0/022/077; ALL combinations of the flags -d -e -p -a and zero/one/two of -r -R -i, zero/one -j, zero/one/two positional arguments (input from a file or a pipe): exit status and the state of the -o path vs the model (CliFlags.validate, then the delivery rule); combinations that may prompt run on a pty (quick tier: a quarter of them). Compared with the model (Cli.v fed with the library outcome): exit status = 0?, state of the -o path (absent / unchanged / content), file mode. distinct_nontrivial = distinct (operation, input, output) cases."
 	dir, _ := os.MkdirTemp("", "verif-c15-")
 	defer os.RemoveAll(dir)
 	pty := x25519Party(c.rng.bytes(32))
@@ -359,7 +359,119 @@ func checkC15(c *Ctx) {
 		c.count("passphrase-pty")
 		c.note("pty", true)
 	}
+	c.c15Flags(dir, pty)
 	c.note("keygen-misc", true)
 	c.sample(map[string]interface{}{"op": "decrypt", "input": "valid-0 (empty payload)", "output": "-o nodir/out.bin", "expected": "non-zero exit, nothing created (finding F4)"})
 	c.sample(map[string]interface{}{"op": "decrypt", "input": "payload-flip-chunk2", "output": "-o out.bin", "expected": "non-zero exit, out.bin = first 65536 plaintext bytes"})
+}
+
+// c15Flags: every combination of the synopsis' flags.  The run is set up so that an ACCEPTED
+// combination succeeds (valid keys, an input that fits the mode, a passphrase typed on the pty when one is
+// asked for) unless it names a plugin (-j: no such plugin is installed, the operation fails after validation).
+func (c *Ctx) c15Flags(dir string, pty *party) {
+	plain := []byte("flag sweep plaintext\n")
+	os.WriteFile(filepath.Join(dir, "fin.txt"), plain, 0o600)
+	encTo, _, _, _ := encryptImplNoTape(&scenario{parties: []*party{pty}, plain: plain})
+	os.WriteFile(filepath.Join(dir, "fin.age"), encTo, 0o600)
+	sp := scryptParty("flag passphrase", 4, 22)
+	encPw, _, _, _ := encryptImplNoTape(&scenario{parties: []*party{sp}, plain: plain})
+	os.WriteFile(filepath.Join(dir, "fin-pw.age"), encPw, 0o600)
+	b2s := func(b bool) string { return sbool(b) }
+	n := 0
+	for mask := 0; mask < 16; mask++ {
+		d, e, p, a := mask&1 != 0, mask&2 != 0, mask&4 != 0, mask&8 != 0
+		for _, nr := range []int{0, 1, 2} {
+			for _, nR := range []int{0, 1} {
+				for _, ni := range []int{0, 1, 2} {
+					for _, nj := range []int{0, 1} {
+						for _, nargs := range []int{0, 1, 2} {
+							n++
+							if (nr == 2 || ni == 2) && !c.thorough() && (n%3 != 0) {
+								continue
+							}
+							model := c.model.Call("cli_flags", ":false", b2s(d), b2s(e), b2s(p), b2s(a), num(nr), num(nR), num(ni), num(nj), num(nargs))
+							accepted := model == ":decrypt" || model == ":encrypt"
+							// may a passphrase prompt appear if the implementation (rightly or wrongly) goes ahead?
+							mayPrompt := p || (d && ni+nj == 0)
+							if mayPrompt && !accepted && !c.thorough() && n%4 != 0 {
+								continue
+							}
+							var args []string
+							for _, f := range []struct {
+								on   bool
+								flag string
+							}{{d, "-d"}, {e, "-e"}, {p, "-p"}, {a, "-a"}} {
+								if f.on {
+									args = append(args, f.flag)
+								}
+							}
+							for k := 0; k < nr; k++ {
+								args = append(args, "-r", rcptString(pty))
+							}
+							for k := 0; k < nR; k++ {
+								args = append(args, "-R", "rcpt.txt")
+							}
+							for k := 0; k < ni; k++ {
+								args = append(args, "-i", []string{"key.txt", "other.txt"}[k])
+							}
+							for k := 0; k < nj; k++ {
+								args = append(args, "-j", "notinstalled")
+							}
+							args = append(args, "-o", "fout")
+							input := "fin.txt"
+							wantOut := []byte(nil) // nil: only existence is predicted (ciphertext)
+							if d {
+								input = "fin.age"
+								if ni == 0 {
+									input = "fin-pw.age"
+								}
+								wantOut = plain
+							}
+							var stdin []byte
+							switch nargs {
+							case 0:
+								stdin, _ = os.ReadFile(filepath.Join(dir, input))
+							case 1:
+								args = append(args, input)
+							default:
+								args = append(args, input, "extra-arg")
+							}
+							os.Remove(filepath.Join(dir, "fout"))
+							var exit int
+							if mayPrompt && nargs != 0 {
+								exit = runPty(dir, [][2]string{{"Enter passphrase", "flag passphrase"}, {"Confirm passphrase", "flag passphrase"}}, append([]string{binPath("age")}, args...)...)
+							} else if mayPrompt {
+								// stdin is the data: a prompt cannot be answered without a terminal; an accepted combination
+								// then fails at the prompt, a refused one is refused first
+								exit = runCLI("age", args, cliOpts{dir: dir, stdin: stdin, fsize: -1}).exit
+							} else {
+								exit = runCLI("age", args, cliOpts{dir: dir, stdin: stdin, fsize: -1}).exit
+							}
+							got, exists := readState(filepath.Join(dir, "fout"))
+							// does the accepted operation then succeed?  encrypting: unless a recipient comes from the missing
+							// plugin; decrypting: the first identity file matches (a later -j is never consulted), a passphrase
+							// file needs the prompt, which needs a terminal and the input not on stdin
+							opOK := accepted && !(mayPrompt && nargs == 0)
+							if d {
+								opOK = opOK && (ni > 0 || nj == 0)
+							} else {
+								opOK = opOK && nj == 0
+							}
+							in := map[string]interface{}{"flags": strings.Join(args, " "), "positional": nargs, "model_verdict": model}
+							implObs := lst(sbool(exit == 0), sbool(exists))
+							modelObs := lst(sbool(opOK), sbool(opOK))
+							c.Compare("age <flags>: exit status 0? / -o created?~CliFlags.validate + delivery", in, implObs, modelObs)
+							c.Oracle("exit-0-iff-result-delivered", (exit == 0) == (exists && (wantOut == nil || bytes.Equal(got, wantOut)) && len(got) > 0), "flags-exit-vs-output", in,
+								fmt.Sprintf("exit %d, output exists %v (%d bytes)", exit, exists, len(got)))
+							if !accepted {
+								c.Oracle("refused-combination-touches-nothing", exit != 0 && !exists, "flags-refusal-touched-output", in, fmt.Sprintf("a combination the synopsis refuses gave exit %d, output exists %v", exit, exists))
+							}
+							c.count("flag-combination:" + strings.TrimPrefix(strings.Trim(strings.Fields(model + " x")[0], "()"), ":"))
+							c.note("flags:"+strings.Join(args, " ")+fmt.Sprint(nargs), true)
+						}
+					}
+				}
+			}
+		}
+	}
 }
